@@ -38,8 +38,10 @@ def gen_abf(r, cid, big=False):
     n = r.choice([2, 2, 3, 3, 4, 5, 6] if big else [2, 2, 3, 3, 4])
     nd = r.choice([1, 1, 2, 2, 3])
     nbins = [r.randint(2, 4 if nd < 3 else 3) for _ in range(nd)]
-    F = r.choice([1, 2, 2, 3, 4])
-    rounds = r.randint(1, 3)
+    F = r.choice([1, 2, 2, 3, 4, 5, 6, 7])
+    rounds = r.randint(1, 3) if F < 5 else r.randint(1, 2)
+    # the absolute step number the job starts at: beyond what an int, an unsigned int, a double hold exactly
+    S0 = r.choice([0, 0, 0, 0, 2 ** 31 - 2, 2 ** 31 + 5, 2 ** 32 - 3, 2 ** 32 + 1, 2 ** 53 - 4, 2 ** 53 + 7, 2 ** 62 - 40])
     t_end = F * rounds + r.randint(0, F - 1)
     p_restart = r.choice([0.0, 0.0, 0.1, 0.25])
     # mode "script": no "shared on" in the configuration, all walkers call "cv bias a share" after the steps in xsteps
@@ -68,14 +70,14 @@ def gen_abf(r, cid, big=False):
                 s.append(["x", w])
             if output and r.random() < 0.15:
                 s.append(["o", w])
-            if r.random() < p_restart and t < t_end and (mode != "oldfmt" or (t > 0 and t % F == 0)):
+            if r.random() < p_restart and t < t_end and (mode != "oldfmt" or (t > 0 and (S0 + t) % F == 0)):
                 s.append(["R" if mode == "oldfmt" else "r", w, r.choice(["text", "binary"])])
                 s.append(["s", w, bins, [V.dyadic(r, -8, 8) for _ in range(nd)], frac])   # the repeated step
         seqs.append(s)
     # interleave: a walker that issued an exchange step is blocked until all walkers issued theirs
     pos = [0] * n
     t = [None] * n
-    last = [0] * n
+    last = [S0] * n
     first = [True] * n
     pending = set()
     events = []
@@ -94,7 +96,7 @@ def gen_abf(r, cid, big=False):
         pos[w] += 1
         events.append(ev)
         if ev[0] == "s":
-            nt = (t[w] if t[w] is not None else 0) if first[w] else t[w] + 1
+            nt = (t[w] if t[w] is not None else S0) if first[w] else t[w] + 1
             first[w] = False
             t[w] = nt
             if F > 0 and nt > last[w] and nt % F == 0:
@@ -115,7 +117,7 @@ def gen_abf(r, cid, big=False):
         if r.random() < 0.5:
             # at the very end one walker is given an unformatted state cut inside the "last_samples" keyword
             events.append(["R", r.randrange(n), "binary", True])
-    return {"kind": "abf", "id": cid, "mode": mode, "script": mode == "script", "oldfmt": mode == "oldfmt", "output": output, "hist": output and r.random() < 0.4, "integrate": integrate, "smp": smp, "n": n, "nd": nd, "nbins": nbins, "freq": F, "apply": r.random() < 0.7,
+    return {"kind": "abf", "id": cid, "mode": mode, "step0": S0, "script": mode == "script", "oldfmt": mode == "oldfmt", "output": output, "hist": output and r.random() < 0.4, "integrate": integrate, "smp": smp, "n": n, "nd": nd, "nbins": nbins, "freq": F, "apply": r.random() < 0.7,
             "full": r.choice([1, 2, 200]), "events": events}
 
 
@@ -133,17 +135,19 @@ def abf_expect(case):
     and the model's case line.  Returns (expected, model_line, qmap): expected[k] = dict for event k (None for
     events without a dump), qmap[k] = index of the model's Q answer for event k."""
     n, nd, F = case["n"], case["nd"], case["freq"]
+    S0 = case.get("step0", 0)
     nc = 1
     for b in case["nbins"]:
         nc *= b
     own = [[] for _ in range(n)]           # samples (addr, forces) fed to walker w, in order
     nshared = [0] * n                      # how many of them were exchanged
     t = [None] * n
-    last = [0] * n
+    last = [S0] * n
     first = [True] * n
     pending = []                           # (event index, walker, sample or None)
     restarted = False
-    tokens = []
+    # the job starts at step S0: colvarbias_abf::init sets shared_last_step to it (in the model: a restart at S0 of the empty walker)
+    tokens = ["r,%d,%d" % (w, S0) for w in range(n)] if S0 else []
     exp = [None] * len(case["events"])
     qmap = {}
     nq = 0
@@ -176,7 +180,7 @@ def abf_expect(case):
     for k, ev in enumerate(case["events"]):
         w = ev[1]
         if ev[0] == "s":
-            nt = (t[w] if t[w] is not None else 0) if first[w] else t[w] + 1
+            nt = (t[w] if t[w] is not None else S0) if first[w] else t[w] + 1
             rel0 = first[w]
             first[w] = False
             t[w] = nt
@@ -218,7 +222,7 @@ def abf_expect(case):
             exp[k] = dict(grids(w, nshared), last_step=last[w], restarted=restarted)
         elif ev[0] == "x":
             # exchange asked for by the script, at the step every walker is at
-            nt = t[w] if t[w] is not None else 0
+            nt = t[w] if t[w] is not None else S0
             last[w] = nt
             tokens.append("a,%d" % w)
             pending.append((k, w, None))
@@ -237,7 +241,7 @@ def abf_expect(case):
         else:
             restarted = True
             first[w] = True
-            last[w] = t[w] if t[w] is not None else 0
+            last[w] = t[w] if t[w] is not None else S0
             tokens.append("r,%d,%d" % (w, last[w]))
             tokens.append("q,%d" % w)
             qmap[k] = nq
@@ -430,14 +434,15 @@ def no_zero_length_runs(events, kinds):
 
 def gen_meta(r, cid, big=False):
     n = r.choice([2, 2, 3, 3, 4, 5, 6] if big else [2, 2, 3, 3, 4])
-    hillfreq = r.choice([1, 1, 2])
-    upfreq = r.choice([1, 2, 2, 3])
+    hillfreq = r.choice([1, 1, 2, 3])
+    upfreq = r.choice([1, 2, 2, 3, 5])
     lock = r.random() < 0.5
     if lock:
-        rf = r.choice([0, 2, 3, 4, 5])
+        rf = r.choice([0, 2, 3, 4, 5, 6, 7])
         restartfreq = [rf] * n
     else:
-        restartfreq = [r.choice([0, 0, 2, 3, 4, 5]) for _ in range(n)]
+        restartfreq = [r.choice([0, 0, 2, 3, 4, 5, 6, 7]) for _ in range(n)]
+    S0 = r.choice([0, 0, 0, 2 ** 31 - 2, 2 ** 31 + 5, 2 ** 32 - 3, 2 ** 32 + 1, 2 ** 53 - 4, 2 ** 53 + 7, 2 ** 62 - 60])
     # margin 0: the first walker starts in bin 0 and the last one ends in the last bin: hills next to the boundaries, which
     # the walkers (and their mirrors of the others) also keep in the list of hills treated off the grid
     margin = r.choice([2, 2, 0])
@@ -486,7 +491,7 @@ def gen_meta(r, cid, big=False):
     return {"kind": "meta", "id": cid, "n": n, "nbins": NB, "hillfreq": hillfreq, "upfreq": upfreq,
             "restartfreq": restartfreq, "lockstep": lock, "grids": r.random() < 0.7, "szd": szd,
             # no replicaID keyword: the name comes from the replica interface of the engine (its replica index)
-            "idfromcomm": r.random() < 0.25, "events": events}
+            "idfromcomm": r.random() < 0.25, "step0": S0, "events": events}
 
 
 def meta_primitives(case):
@@ -495,6 +500,7 @@ def meta_primitives(case):
     Returns per event a list of primitives ("setup", w, S, nn) ("dep", w, it, bin) ("flush", w) ("share", w)
     ("wstate", w, S) ("rrestart", w), and per walker the deposited sequence after each event."""
     n = case["n"]
+    S0 = case.get("step0", 0)
     t = [None] * n
     first = [True] * n
     started = [False] * n
@@ -507,10 +513,10 @@ def meta_primitives(case):
         w = ev[1]
         p = []
         if not started[w]:
-            p.append(("setup", w, 0, False))
+            p.append(("setup", w, S0, False))
             started[w] = True
         if ev[0] == "s":
-            nt = (t[w] if t[w] is not None else 0) if first[w] else t[w] + 1
+            nt = (t[w] if t[w] is not None else S0) if first[w] else t[w] + 1
             rel0 = first[w]
             first[w] = False
             t[w] = nt
